@@ -11,3 +11,24 @@ Definition caps_id_sort_keys : list (N * N) := [(0, 0); (1, 1); (2, 2)]%N.
 (* make(_, _, x.Len() - k): the k of every such capacity *)
 Definition caps_len_cap_deficits : list N := [0]%N.
 Definition caps_other_caps_nonneg : bool := true.
+
+(* ---- the tail of Info.AppendHash (the statements after its last loop) in a small
+   language of slice operations; variables are numbered in order of appearance,
+   slice variable 0 is the destination parameter ---- *)
+Inductive t_int :=
+| TLit (n : N) | TIntVar (v : N) | TLen (v : N) | TCap (v : N)
+| TEncLen (e : t_int) | TAdd (a b : t_int) | TSub (a b : t_int) | TIntUnknown.
+Inductive t_slice :=
+| TNil | TVar (v : N) | TSum (e : t_slice)
+| TMake (len : t_int) (cap : option t_int)
+| TReslice (e : t_slice) (lo hi : option t_int)
+| TAppend (e f : t_slice) | TSliceUnknown.
+Inductive t_cmp := CLt | CLe | CGt | CGe | CEq | CNe.
+Inductive t_cond := TCmp (c : t_cmp) (a b : t_int) | TCondUnknown.
+Inductive t_stmt :=
+| TAssign (v : N) (e : t_slice) | TAssignInt (v : N) (e : t_int)
+| TIf (c : t_cond) (th el : list t_stmt)
+| TEncode (dst src : t_slice) | TReturn (e : t_slice) | TUnknown.
+Definition caps_tail : list t_stmt := [TAssign 1 (TSum (TVar 0)); TAssignInt 0 (TEncLen (TLen 1)); TAssign 2 (TReslice (TVar 1) (Some (TLen 1)) None); TIf (TCmp CLt (TCap 2) (TIntVar 0)) [TAssign 2 (TMake (TIntVar 0) None)] []; TAssign 2 (TReslice (TVar 2) None (Some (TIntVar 0))); TEncode (TVar 2) (TVar 1); TReturn (TVar 2)]%N.
+(* the destination that Info.Hash passes to AppendHash *)
+Definition caps_hash_dst : t_slice := TNil%N.
